@@ -573,6 +573,24 @@ def _h_re_sub(args, kw):
         raise Unmodelled('re.sub on symbolic text')
     if len(args) >= 2 and type(args[1]) in (SymStr, SymTok):
         raise Unmodelled('re.sub with symbolic replacement')
+    if len(args) >= 3 and callable(args[1]) and isinstance(args[2], str) and not kw and len(args) == 3 and core.CUR is not None:
+        # replacement computed by a callable on concrete text: the callable may return symbolic text
+        pat = args[0] if hasattr(args[0], 'finditer') else _re.compile(args[0])
+        out = []
+        pos = 0
+        sym = False
+        text = args[2]
+        for m in pat.finditer(text):
+            out.extend(text[pos:m.start()])
+            pos = m.end()
+            r = args[1](m)
+            if type(r) in (SymStr, SymTok):
+                sym = True
+                out.extend(chars_of(r))
+            else:
+                out.extend(r)
+        out.extend(text[pos:])
+        return mk(core.CUR, out) if sym else ''.join(out)
     return _re.sub(*args, **kw)
 
 
@@ -665,6 +683,13 @@ def _sx_call(f, *args, **kw):
         if h is not None:
             return h(args, kw)
         s = f.__self__
+        if type(s) is str and f.__name__ == 'join' and len(args) == 1:
+            items = args[0]
+            if type(items) not in (list, tuple):
+                items = list(items)
+            if _has_sym(items):
+                return _sym_method(s, 'join', (items,), kw)
+            return f(items)
         if args and isinstance(s, (str, dict, list)):
             sym = False
             for a in args:
